@@ -207,6 +207,28 @@ func c04Pairing(c *Ctx) {
 				bad("a failure must be recorded as failure and a success as success")
 				continue
 			}
+			// the failure is recorded with the execution *carrying the failing result*: the delay function that decides
+			// how long the breaker stays open is computed from it
+			if m == "recordFailure" && isF == triT {
+				arg := argN(recs[0], len(fullArgs(recs[0]))-1)
+				if arg == nil || !copyOf(p, arg, exec, nil) {
+					bad("recordFailure must receive exec.CopyWithResult(<the failing result>): the open delay is computed by the delay function from that execution, which would otherwise see the previous attempt's (or no) result")
+					continue
+				}
+				for _, e := range p.Events() {
+					if isCall(e, "CopyWithResult") && len(e.Res) == 1 && e.Res[0] == arg {
+						// the result handed to OnFailure is the inner result marked as failure (WithFailure of it)
+						sameOutcome := func(r, base *T) bool {
+							a, b := resultField(ev, p.State, r, "Result"), resultField(ev, p.State, base, "Result")
+							x, y := resultField(ev, p.State, r, "Error"), resultField(ev, p.State, base, "Error")
+							return a != nil && a == b && x != nil && x == y
+						}
+						if !(e.Args[0] == inner[0].Res[0] || resultDerivedFrom(p, e.Args[0], inner[0].Res[0]) || sameOutcome(e.Args[0], inner[0].Res[0])) {
+							bad("the execution handed to recordFailure must carry the failing result of this attempt")
+						}
+					}
+				}
+			}
 			// an internal (lock-free) record function must run under the breaker's mutex
 			if m == "recordFailure" || m == "recordSuccess" {
 				locked := false
@@ -386,6 +408,23 @@ func c04RecordInternals(c *Ctx) {
 	} else {
 		c.Ok("circuitbreaker.(*circuitBreaker).tryAcquirePermit", "", "no separate helper (the state is asked directly; checked in TryAcquirePermit and PreExecute)")
 	}
+}
+
+// resultDerivedFrom: r is base.WithFailure() / base.WithDone(…) (or a chain of them) on this path.
+func resultDerivedFrom(p *Path, r, base *T) bool {
+	for depth := 0; depth < 4 && r != nil; depth++ {
+		if r == base {
+			return true
+		}
+		var next *T
+		for _, e := range p.Events() {
+			if (isCall(e, "WithFailure") || isCall(e, "WithDone")) && len(e.Res) == 1 && e.Res[0] == r {
+				next = e.Recv
+			}
+		}
+		r = next
+	}
+	return false
 }
 
 // onBreakerOrItsState: the receiver is the state's breaker (its tryAcquirePermit helper) or the breaker's current
